@@ -186,9 +186,15 @@ def check_L1_batch(S, p, idxs):
 def cs_from_codes(samples, hist, contig="c1", start=1):
     code_gt = {"0": (0, 0), "1": (0, 1), "2": (1, 1), "3": (None, None), "4": (1, 2)}
     recs = []
+    pos, cur = start, contig
     for i, h in enumerate(hist):
-        recs.append(Record(contig, start + i, [gt(code_gt[c], False) for c in h], alts=["C", "G"]))
-    return CallSet(samples, [(contig, 10 ** 6)], recs)
+        # deterministic variety: some records share a position, and the stream switches contig once keeping POS
+        if i and (len(h) + i) % 7 != 0:
+            pos += 1
+        if i == (2 * len(hist)) // 3 and len(hist) > 3:
+            cur = contig + "b"
+        recs.append(Record(cur, pos, [gt(code_gt[c], False) for c in h], alts=["C", "G"]))
+    return CallSet(samples, [(contig, 10 ** 6), (contig + "b", 10 ** 6)], recs)
 
 
 def parse_vals(out):
@@ -236,6 +242,79 @@ def check_C(S, p):
         S.case(key=digest([hist, E.map_json(smap), project, "C"]), nontrivial=len(set(hist)) >= 3)
 
 
+def check_C_value_less(S, p):
+    """Records in which a sample has NO genotype value at all (bare '.' column in VCF text; FORMAT without GT in any container),
+    and neighbouring records with equal POS on different contigs, interleaved with ordinary records: whole == sum of parts, any
+    order, and equal to the reference in which such a sample is simply missing."""
+    rng = rng_for(S.seed, "c11", p["name"], "valueless")
+    ns = rng.randint(2, 4)
+    samples = ["s%d" % j for j in range(ns)]
+    smap = [(s_, None) for s_ in samples]
+    project = [rng.randint(1, 2 * ns)] if rng.random() < 0.5 else None
+    lines, recs_oracle = [], []
+    pos = {"c1": 0, "c2": 0}
+    contig = "c1"
+    for i in range(rng.choice([6, 12, 30])):
+        if i and rng.random() < 0.25:
+            contig = "c2" if contig == "c1" else "c1"
+            pos[contig] = max(pos[contig], pos["c1" if contig == "c2" else "c2"])          # equal POS across the contig switch
+        else:
+            pos[contig] += rng.choice([0, 1, 1, 5])
+        pos[contig] = max(1, pos[contig])
+        kind = rng.choice(["plain", "plain", "bare-dot", "no-gt"])
+        gts, cols = [], []
+        for j in range(ns):
+            a = (rng.randint(0, 1), rng.randint(0, 1))
+            if kind == "bare-dot" and rng.random() < 0.5:
+                gts.append(gt((None, None)))
+                cols.append(".")
+            elif kind == "no-gt":
+                gts.append(gt((None, None)))
+                cols.append(str(rng.randint(1, 40)))
+            else:
+                gts.append(gt(a))
+                cols.append("%d/%d" % a)
+        fmtcol = "DP" if kind == "no-gt" else "GT"
+        lines.append("%s\t%d\t.\tA\tC\t.\t.\t.\t%s\t%s" % (contig, pos[contig], fmtcol, "\t".join(cols)))
+        recs_oracle.append(Record(contig, pos[contig], gts))
+    header = ("##fileformat=VCFv4.3\n##contig=<ID=c1,length=100000>\n##contig=<ID=c2,length=100000>\n"
+              '##FORMAT=<ID=GT,Number=1,Type=String,Description="g">\n##FORMAT=<ID=DP,Number=1,Type=Integer,Description="d">\n'
+              "#CHROM\tPOS\tID\tREF\tALT\tQUAL\tFILTER\tINFO\tFORMAT\t" + "\t".join(samples) + "\n")
+
+    def vcf(idx):
+        return (header + "".join(lines[i] + "\n" for i in idx)).encode()
+
+    def run(idx, gz):
+        d = vcf(idx)
+        if gz:
+            from ..gen import vcfgen
+            d = vcfgen.bgzf(d, vcfgen.record_cuts_vcf(d)[::2])
+        return E.cli_create(d, smap, project=project, extra=["--precision", "10"] if project else [])
+    allidx = list(range(len(lines)))
+    cut = rng.randint(1, len(lines) - 1)
+    perm = allidx[:]
+    rng.shuffle(perm)
+    gz = rng.random() < 0.5
+    whole, a, b, pm = run(allidx, gz), run(allidx[:cut], gz), run(allidx[cut:], gz), run(perm, gz)
+    S.count("C_relations", 2)
+    S.count("C_value_less_cases")
+    exp = reference_create(CallSet(samples, [("c1", 100000), ("c2", 100000)], recs_oracle), smap, project)
+    wit = {"level": "C", "vcf": vcf(allidx).decode(), "project": project, "cut": cut, "perm": perm}
+    vs = [parse_vals(r.out) if r.rc == 0 else None for r in (whole, a, b, pm)]
+    if any(v is None for v in vs):
+        S.viol("C11:cli-fail", "[C value-less %s] a run failed: %r %r" % (p["name"], [r.rc for r in (whole, a, b, pm)], whole.err[:200]), wit)
+        return
+    tol = 0 if project is None else Fraction(len(lines), 10 ** 9) + Fraction(2, 10 ** 10)
+    if any(abs(w - Fraction(e)) > tol for w, e in zip(vs[0][1], exp.cells)) or vs[0][0] != exp.shape:
+        S.viol("C11:value-less-reference", "[C %s target %r] spectrum %r differs from the reference %r (a sample without a genotype value is missing, whatever it had in the record before)" % (
+            p["name"], project, [float(x) for x in vs[0][1][:8]], [float(x) for x in exp.cells[:8]]), wit)
+    if any(abs(w - (x + y)) > tol for w, x, y in zip(vs[0][1], vs[1][1], vs[2][1])):
+        S.viol("C11:additivity", "[C value-less %s] spectrum(A||B) != spectrum(A)+spectrum(B) at cut %d" % (p["name"], cut), wit)
+    if any(abs(w - x) > tol for w, x in zip(vs[0][1], vs[3][1])):
+        S.viol("C11:permutation", "[C value-less %s] permuting the records changed the spectrum" % p["name"], wit)
+    S.case(key=digest([lines, project]), nontrivial=True)
+
+
 def shard(S, p):
     if "replay" in p:
         if p["replay"].get("level") == "L1":
@@ -245,3 +324,4 @@ def shard(S, p):
         return
     check_L1(S, p)
     check_C(S, p)
+    check_C_value_less(S, p)
